@@ -328,3 +328,467 @@ def _concretise_layout(it, lay):
             r = {'keys': [kc(k) for k in r['keys']], 'delay_ms': num(r['delay_ms']), 'interval_ms': num(r['interval_ms'])}
         out.append({'from': [kc(k) for k in m['from']], 'to': [kc(k) for k in m['to']], 'repeat': r, 'absorbing': [kc(k) for k in m['absorbing']]})
     return out
+
+
+# =========================================================================== C13: reference expansion
+US_ROWS = {
+    '`': ['GRAVE', '1', '2', '3', '4', '5', '6', '7', '8', '9', '0', 'MINUS', 'EQUAL'],
+    '1': ['1', '2', '3', '4', '5', '6', '7', '8', '9', '0', 'MINUS', 'EQUAL'],
+    'Q': ['Q', 'W', 'E', 'R', 'T', 'Y', 'U', 'I', 'O', 'P', 'LEFTBRACE', 'RIGHTBRACE'],
+    'A': ['A', 'S', 'D', 'F', 'G', 'H', 'J', 'K', 'L', 'SEMICOLON', 'APOSTROPHE'],
+    'Z': ['Z', 'X', 'C', 'V', 'B', 'N', 'M', 'COMMA', 'DOT', 'SLASH'],
+}
+# independent table of the 94 printable US-QWERTY characters: (unshifted, shifted, key name)
+_US_KEYS = [('`', '~', 'GRAVE'), ('1', '!', '1'), ('2', '@', '2'), ('3', '#', '3'), ('4', '$', '4'), ('5', '%', '5'), ('6', '^', '6'),
+            ('7', '&', '7'), ('8', '*', '8'), ('9', '(', '9'), ('0', ')', '0'), ('-', '_', 'MINUS'), ('=', '+', 'EQUAL'),
+            ('[', '{', 'LEFTBRACE'), (']', '}', 'RIGHTBRACE'), ('\\', '|', 'BACKSLASH'), (';', ':', 'SEMICOLON'), ("'", '"', 'APOSTROPHE'),
+            (',', '<', 'COMMA'), ('.', '>', 'DOT'), ('/', '?', 'SLASH')] + [(c, c.upper(), c.upper()) for c in 'abcdefghijklmnopqrstuvwxyz']
+US_CHARS = {}
+for _lo, _hi, _k in _US_KEYS:
+    US_CHARS[_lo] = (False, _k)
+    US_CHARS[_hi] = (True, _k)
+STD_MODS = ('LEFTSHIFT', 'RIGHTSHIFT', 'LEFTALT', 'RIGHTALT', 'LEFTCTRL', 'RIGHTCTRL', 'LEFTMETA', 'RIGHTMETA')
+
+
+class RefReject(Exception):
+    pass
+
+
+def _aslist(x):
+    return list(x) if isinstance(x, list) else [x]
+
+
+def ref_expand(program):
+    """hand-written expansion of a layout program (python/JSON form, key names as strings) into basic mappings.
+    returns list of blocks; block = list of dict(from,to,repeat,absorbing) with key names. Raises RefReject when the
+    program is outside what the reference defines (undefined alias, unknown char ...)."""
+    maps = program['mappings']
+    aliases = {}
+    for m in maps:
+        if 'to' in m:
+            t = _aslist(m['to'])
+            if t and isinstance(t[-1], str) and t[-1].startswith('@'):
+                aliases.setdefault(t[-1], []).append(_aslist(m['from']))
+
+    def combos(mods):
+        names = [x for x in mods if isinstance(x, str) and x.startswith('@')]
+        for n in names:
+            if n not in aliases:
+                raise RefReject('undefined alias ' + n)
+        if len(set(names)) != len(names):
+            raise RefReject('alias used twice in one trigger')
+        choices = [range(len(aliases[n])) for n in names]
+        for tup in itertools.product(*choices):
+            chosen = dict(zip(names, tup))
+            yield chosen
+
+    def reify(mods, chosen):
+        out = []
+        for x in mods:
+            if x.startswith('@'):
+                if x not in chosen:
+                    raise RefReject('output alias not on the trigger side')
+                out.extend(aliases[x][chosen[x]])
+            else:
+                out.append(x)
+        return out
+
+    def repeat_single(rep, chosen):
+        if rep is None:
+            return 'Normal'
+        if isinstance(rep, str):
+            return rep.capitalize()
+        sp = rep['Special']
+        keys = _aslist(sp['keys'])
+        return {'keys': reify(keys, chosen) if keys else [], 'delay_ms': sp['delay_ms'], 'interval_ms': sp['interval_ms']}
+
+    def letters_to(ch, to_mods, from_keys):
+        if ch == ' ':
+            return None
+        if ch not in US_CHARS:
+            raise RefReject('unknown char')
+        sh, k = US_CHARS[ch]
+        out = list(to_mods)
+        if sh:
+            out.append('RIGHTSHIFT' if 'RIGHTSHIFT' in from_keys else 'LEFTSHIFT')
+        out.append(k)
+        return out
+    blocks = []
+    for m in maps:
+        frm = _aslist(m['from'])
+        block = []
+        if 'to' not in m:
+            blocks.append(block)     # repeat-only: applied afterwards
+            continue
+        to = _aslist(m['to'])
+        if to and isinstance(to[-1], str) and to[-1].startswith('@'):
+            if not (len(frm) == 1 and frm[0] in STD_MODS):
+                block.append({'from': frm, 'to': to[:-1], 'repeat': 'Normal', 'absorbing': []})
+            blocks.append(block)
+            continue
+        absb = _aslist(m.get('absorbing', []))
+        if isinstance(frm[-1], dict):
+            row = US_ROWS[frm[-1]['row'].upper()]
+            tmods, letters = to[:-1], to[-1]['letters']
+            rep = m.get('repeat')
+            for chosen in combos(frm[:-1]):
+                fmods = reify(frm[:-1], chosen)
+                tm = reify(tmods, chosen)
+                for i, ch in enumerate(letters):
+                    if i >= len(row):
+                        raise RefReject('row too long')
+                    out = letters_to(ch, tm, fmods)
+                    if out is None:
+                        continue
+                    if rep is None:
+                        r = 'Normal'
+                    elif isinstance(rep, str):
+                        r = rep.capitalize()
+                    else:
+                        sp = rep['Special']
+                        rk = _aslist(sp['keys'])
+                        rl = rk[-1]['letters']
+                        if len(rl) > len(letters):
+                            raise RefReject('repeat longer than to')
+                        rkeys = letters_to(rl[i], reify(rk[:-1], chosen), fmods) if i < len(rl) else None
+                        r = 'Normal' if rkeys is None else {'keys': rkeys, 'delay_ms': sp['delay_ms'], 'interval_ms': sp['interval_ms']}
+                    block.append({'from': fmods + [row[i]], 'to': out, 'repeat': r, 'absorbing': reify(absb, chosen)})
+        else:
+            for chosen in combos(frm[:-1]):
+                fk = reify(frm[:-1], chosen) + [frm[-1]]
+                out = (reify(to[:-1], chosen) + [to[-1]]) if to else []
+                block.append({'from': fk, 'to': out, 'repeat': repeat_single(m.get('repeat'), chosen), 'absorbing': reify(absb, chosen)})
+        blocks.append(block)
+    # repeat-only entries, in source order
+    flat_index = []
+    for bi, b in enumerate(blocks):
+        for mi in range(len(b)):
+            flat_index.append((bi, mi))
+    extra = []
+    for m in maps:
+        if 'to' in m:
+            continue
+        frm = _aslist(m['from'])
+        for chosen in combos(frm[:-1]):
+            fk = reify(frm[:-1], chosen) + [frm[-1]]
+            r = repeat_single(m.get('repeat'), chosen)
+            hit = False
+            for b in blocks + [extra]:
+                for bm in b:
+                    if sorted(bm['from'][:-1]) == sorted(fk[:-1]) and bm['from'][-1] == fk[-1]:
+                        if b is extra and not bm.get('_table', False):
+                            continue        # identity mappings added by earlier repeat-only entries are not in the table
+                        bm['repeat'] = r
+                        hit = True
+            if not hit:
+                extra.append({'from': fk, 'to': list(fk), 'repeat': r, 'absorbing': []})
+    blocks.append(extra)
+    return blocks
+
+
+def names_to_codes(blocks):
+    def kc(n):
+        return INVN[n]
+    out = []
+    for b in blocks:
+        nb = []
+        for m in b:
+            r = m['repeat']
+            if isinstance(r, dict):
+                r = {'keys': [kc(k) for k in r['keys']], 'delay_ms': r['delay_ms'], 'interval_ms': r['interval_ms']}
+            nb.append({'from': [kc(k) for k in m['from']], 'to': [kc(k) for k in m['to']], 'repeat': r, 'absorbing': [kc(k) for k in m['absorbing']]})
+        out.append(nb)
+    return out
+
+
+def compare_blocks(real, blocks):
+    """real: flat list of mappings (python, codes); blocks: reference blocks. order inside a block is free."""
+    total = sum(len(b) for b in blocks)
+    if len(real) != total:
+        return 'the converter produced %d mappings, the hand-written expansion has %d' % (len(real), total)
+    pos = 0
+    for bi, b in enumerate(blocks):
+        chunk = real[pos:pos + len(b)]
+        pos += len(b)
+        key = lambda m: json.dumps(m, sort_keys=True, default=str)
+        if sorted(map(key, chunk)) != sorted(map(key, b)):
+            return 'source mapping %d expands to %s, the hand-written expansion is %s' % (bi, _short(chunk), _short(b))
+    return None
+
+
+def _short(ms):
+    def nm(k):
+        return NAMES.get(k, k)
+    out = []
+    for m in ms[:6]:
+        r = m['repeat']
+        if isinstance(r, dict):
+            r = 'Special(%s,%s,%s)' % ([nm(k) for k in r['keys']], r['delay_ms'], r['interval_ms'])
+        out.append('%s->%s %s%s' % ([nm(k) for k in m['from']], [nm(k) for k in m['to']], r, (' abs ' + str([nm(k) for k in m['absorbing']])) if m['absorbing'] else ''))
+    return '; '.join(out) + (' ...' if len(ms) > 6 else '')
+
+
+SYMCH = '␟'     # placeholder character marking the symbolic letter position in a program
+
+
+def c13_programs(tier, rng):
+    quick = tier == 'quick'
+    P = []
+    shift = [{'from': 'LEFTSHIFT', 'to': '@shift'}, {'from': 'RIGHTSHIFT', 'to': '@shift'}]
+    sym = [{'from': 'CAPSLOCK', 'to': '@symbol'}, {'from': 'RIGHTALT', 'to': '@symbol'}]
+    hyper = [{'from': ['LEFTCTRL', 'LEFTALT'], 'to': ['LEFTMETA', '@hyper']}, {'from': 'TAB', 'to': ['LEFTCTRL', '@hyper']}]
+    sp = lambda keys: {'Special': {'keys': keys, 'delay_ms': 180, 'interval_ms': 30}}
+    # --- rows with one symbolic letter
+    base_letters = {'`': '~!@#$%^&*()_+', '1': 'aB3$ x.Y/Z;,', 'Q': "',.pyf gcrl/", 'A': 'aoeu idhtn-', 'Z': ';qjkxbm wv'}
+    rows = ['`', '1', 'Q', 'A', 'Z']
+    for row in rows:
+        L = len(US_ROWS[row])
+        positions = list(range(L)) if not quick else sorted(set([0, L - 1, rng.randrange(1, L - 1)]))
+        for p in positions:
+            letters = base_letters[row][:L]
+            letters = letters[:p] + SYMCH + letters[p + 1:]
+            cfg = rng.randrange(4) if quick else None
+            variants = [
+                {'mappings': [{'from': {'row': row}, 'to': {'letters': letters}}]},
+                {'mappings': shift + [{'from': ['@shift', {'row': row.lower()}], 'to': {'letters': letters}, 'absorbing': '@shift'}]},
+                {'mappings': [{'from': ['RIGHTSHIFT', 'CAPSLOCK', {'row': row}], 'to': ['LEFTCTRL', {'letters': letters}], 'repeat': 'disabled'}]},
+                {'mappings': shift + sym + [{'from': ['@symbol', '@shift', {'row': row}], 'to': ['@symbol', {'letters': letters}],
+                                             'repeat': sp(['@shift', {'letters': letters[:max(1, p)].replace(SYMCH, 'z')}])}]},
+            ]
+            for vi, v in enumerate(variants):
+                if cfg is None or vi == cfg or (vi == 0 and p == 0):
+                    P.append(('row %s pos %d variant %d' % (row, p, vi), v))
+    # symbolic letter inside the repeat letters
+    P.append(('row repeat letters', {'mappings': [{'from': ['CAPSLOCK', {'row': 'A'}], 'to': {'letters': 'hjkl'}, 'repeat': sp({'letters': 'a' + SYMCH + ' '})}]}))
+    # --- aliases, singles, repeat-only, spellings (concrete)
+    C = [
+        ('alias basic', {'mappings': shift + [{'from': ['@shift', 'SPACE'], 'to': 'BACKSPACE'}]}),
+        ('alias output side', {'mappings': shift + sym + [{'from': ['@symbol', '@shift', 'S'], 'to': ['RIGHTALT', '@shift', 'S'], 'absorbing': ['@shift']}]}),
+        ('alias plain before alias', {'mappings': shift + sym + [{'from': ['LEFTCTRL', '@shift', '@symbol', 'J'], 'to': ['@shift', 'LEFT'], 'repeat': sp(['@symbol', 'F21'])}]}),
+        ('alias plain between', {'mappings': shift + sym + [{'from': ['@shift', 'LEFTCTRL', '@symbol', 'J'], 'to': ['@symbol', '@shift', 'K']}]}),
+        ('alias multi-key defs', {'mappings': hyper + [{'from': ['@hyper', 'A'], 'to': ['@hyper', 'B'], 'absorbing': '@hyper'}, {'from': ['@hyper', 'C'], 'to': []}]}),
+        ('three aliases', {'mappings': shift + sym + [{'from': 'LEFTCTRL', 'to': '@c'}, {'from': 'LEFTALT', 'to': '@c'},
+                                                     {'from': ['@c', '@symbol', '@shift', 'X'], 'to': ['@shift', '@c', 'Y']}]}),
+        ('three defs', {'mappings': shift + [{'from': 'CAPSLOCK', 'to': '@shift'}, {'from': ['@shift', 'A'], 'to': 'B'}, {'from': ['@shift', {'row': 'Z'}], 'to': ['@shift', {'letters': 'a?'}]}]}),
+        ('alias with extra output', {'mappings': [{'from': 'CAPSLOCK', 'to': ['LEFTCTRL', '@ctl']}, {'from': ['@ctl', 'A'], 'to': 'B'}]}),
+        ('repeat-only after', {'mappings': [{'from': 'J', 'to': 'DOWN'}, {'from': ['CAPSLOCK', 'LEFTCTRL', 'J'], 'to': 'PAGEDOWN'},
+                                            {'from': 'J', 'repeat': sp('F21')}, {'from': ['LEFTCTRL', 'CAPSLOCK', 'J'], 'repeat': 'Disabled'}]}),
+        ('repeat-only before', {'mappings': [{'from': 'J', 'repeat': sp(['F21'])}, {'from': 'J', 'to': 'DOWN'}, {'from': 'K', 'to': 'UP', 'repeat': 'Disabled'}]}),
+        ('repeat-only no target', {'mappings': [{'from': 'K', 'to': 'UP'}, {'from': ['RIGHTALT', 'J'], 'repeat': sp([])}, {'from': 'L', 'repeat': 'disabled'}]}),
+        ('repeat-only alias', {'mappings': shift + [{'from': ['@shift', 'J'], 'to': 'DOWN'}, {'from': ['@shift', 'J'], 'repeat': sp(['@shift', 'F21'])},
+                                                   {'from': ['@shift', 'K'], 'repeat': 'Disabled'}]}),
+        ('repeat-only on row', {'mappings': [{'from': ['CAPSLOCK', {'row': 'A'}], 'to': {'letters': 'hjkl'}}, {'from': ['CAPSLOCK', 'S'], 'repeat': sp('F22')},
+                                             {'from': ['CAPSLOCK', 'A'], 'repeat': 'Disabled'}]}),
+        ('two repeat-only same trigger', {'mappings': [{'from': 'J', 'repeat': 'Disabled'}, {'from': 'J', 'repeat': sp('F21')}]}),
+        ('duplicate triggers', {'mappings': [{'from': 'A', 'to': 'B'}, {'from': 'A', 'to': 'C'}, {'from': 'A', 'repeat': 'Disabled'}]}),
+        ('empty outputs', {'mappings': [{'from': 'CAPSLOCK', 'to': []}, {'from': ['CAPSLOCK', 'Q'], 'to': ['ESC'], 'repeat': 'DISABLED', 'absorbing': ['CAPSLOCK']}]}),
+    ]
+    P += C
+    return P
+
+
+def c13_spellings():
+    """pairs of programs that must convert identically"""
+    sp = lambda keys: {'Special': {'keys': keys, 'delay_ms': 180, 'interval_ms': 30}}
+    return [
+        ({'mappings': [{'from': 'A', 'to': 'B'}]}, {'mappings': [{'from': ['A'], 'to': ['B']}]}),
+        ({'mappings': [{'from': {'row': 'a'}, 'to': {'letters': 'xy'}}]}, {'mappings': [{'from': [{'row': 'A'}], 'to': [{'letters': 'xy'}]}]}),
+        ({'mappings': [{'from': {'row': 'q'}, 'to': {'letters': 'x Y'}, 'repeat': 'disabled'}]}, {'mappings': [{'from': {'row': 'Q'}, 'to': {'letters': 'x Y'}, 'repeat': 'Disabled'}]}),
+        ({'mappings': [{'from': 'A', 'to': 'B', 'repeat': 'NORMAL'}]}, {'mappings': [{'from': 'A', 'to': 'B'}]}),
+        ({'mappings': [{'from': ['LEFTSHIFT', 'A'], 'to': 'B', 'absorbing': 'LEFTSHIFT'}]}, {'mappings': [{'from': ['LEFTSHIFT', 'A'], 'to': 'B', 'absorbing': ['LEFTSHIFT']}]}),
+        ({'mappings': [{'from': 'A', 'to': 'B', 'repeat': sp('F21')}]}, {'mappings': [{'from': 'A', 'to': 'B', 'repeat': sp(['F21'])}]}),
+        ({'mappings': [{'from': 'A', 'to': 'A', 'repeat': 'Disabled'}]}, {'mappings': [{'from': 'A', 'repeat': 'disabled'}]}),
+    ]
+
+
+def subst_program(prog, ch):
+    """replace the symbolic-letter placeholder by ch (a python char or a z3 term -> SStr)"""
+    def rec(x):
+        if isinstance(x, dict):
+            return {k: rec(v) for k, v in x.items()}
+        if isinstance(x, list):
+            return [rec(v) for v in x]
+        if isinstance(x, str) and SYMCH in x:
+            if isinstance(ch, str):
+                return x.replace(SYMCH, ch)
+            return SStr([ch if c == SYMCH else ord(c) for c in x])
+        return x
+    return rec(prog)
+
+
+def value_of(x):
+    """python program (possibly containing SStr) -> Value"""
+    if isinstance(x, SStr):
+        return Adt('Value', 'String', [x])
+    if isinstance(x, dict):
+        from .serdemodel import jobj
+        return jobj([(k, value_of(v)) for k, v in sorted(x.items())])
+    if isinstance(x, list):
+        from .serdemodel import jarr
+        return jarr([value_of(v) for v in x])
+    return from_python(x)
+
+
+def has_sym(prog):
+    return SYMCH in json.dumps(prog, ensure_ascii=False)
+
+
+def check_c13(tier, seed):
+    t0 = time.time()
+    prog = load_program()
+    native = Native()
+    setup(prog, native)
+    oc = Outcome('C13')
+    rng = random.Random(seed)
+    stats = {'paths': 0, 'programs': 0, 'mir_steps': 0, 'z3_checks': 0, 'symbolic_letters': 0}
+    viols = []
+    samples = []
+    for name, program in c13_programs(tier, rng):
+        stats['programs'] += 1
+        symbolic = has_sym(program)
+        if symbolic:
+            stats['symbolic_letters'] += 1
+
+        def run(it, program=program, symbolic=symbolic):
+            ch = None
+            if symbolic:
+                ch = z3.BitVec('letter', 32)
+                it.assume(z3.And(z3.UGE(ch, 0x20), z3.ULE(ch, 0x7e)))
+            value = value_of(subst_program(program, ch) if symbolic else program)
+            try:
+                st, res = load_value(it, value)
+            except Panic as e:
+                cp = program
+                if symbolic:
+                    m = it.model()
+                    cp = subst_program(program, chr(m.eval(ch, model_completion=True).as_long()))
+                raise Violation('C13', 'panic while converting: %s' % e, {'program': cp})
+            cval = None
+            if symbolic:
+                m = it.model()
+                cval = m.eval(ch, model_completion=True).as_long()
+                if it.check_sat(ch != cval):
+                    # the path does not pin the letter: judge every remaining value by splitting on the model value
+                    it.decide(ch == cval)
+                cprog = subst_program(program, chr(cval))
+            else:
+                cprog = program
+            try:
+                ref = names_to_codes(ref_expand(cprog))
+            except RefReject as e:
+                if st == 'ok':
+                    raise Violation('C13', 'the converter accepts a program the hand-written expansion rejects (%s)' % e, {'program': cprog})
+                return None
+            if st != 'ok':
+                raise Violation('C13', 'the converter rejects a valid program: %s' % (res if isinstance(res, str) else '<message>'), {'program': cprog})
+            real = layout_to_py(it, res)
+            diff = compare_blocks(real, ref)
+            if diff is not None:
+                raise Violation('C13', diff, {'program': cprog})
+            return cprog
+        for it, (kind, res) in explore(run):
+            stats['paths'] += 1
+            stats['mir_steps'] += it.steps
+            stats['z3_checks'] += it.stats['z3_checks']
+            if kind == 'ok':
+                if res is not None and len(samples) < 3 and not symbolic:
+                    samples.append({'program': res})
+            elif kind == 'viol':
+                viols.append((name, res.what, res.ctx.get('program')))
+            else:
+                viols.append((name, 'panic while converting: ' + res, None))
+    # spelling equivalences
+    for a, b in c13_spellings():
+        stats['programs'] += 2
+        outs = []
+        for p in (a, b):
+            it = Interp(prog, keys=KeyTheory(mapper.DOMAIN))
+            try:
+                st, res = load_value(it, value_of(p))
+                outs.append((st, layout_to_py(it, res) if st == 'ok' else None))
+            except Panic as e:
+                outs.append(('panic', str(e)))
+            stats['paths'] += 1
+        if outs[0] != outs[1] or outs[0][0] != 'ok':
+            viols.append(('spellings', 'equivalent spellings convert differently: %s vs %s' % (_short(outs[0][1]) if outs[0][1] and outs[0][0] == 'ok' else outs[0], _short(outs[1][1]) if outs[1][1] and outs[1][0] == 'ok' else outs[1]), a))
+            viols.append(('spellings', 'equivalent spellings convert differently (second spelling)', b))
+    log('[C13] %d programs, %d paths, %d symbolic violations, %.1fs' % (stats['programs'], stats['paths'], len(viols), time.time() - t0))
+    # native confirmation
+    seen = {}
+    spell_natives = {}
+    for name, what, cprog in viols:
+        role = what.split(',')[0][:60]
+        if seen.get(name, 0) >= 2:
+            continue
+        seen[name] = seen.get(name, 0) + 1
+        if cprog is None:
+            oc.inconclusive.append('symbolic violation without a concrete program: %s: %s' % (name, what))
+            continue
+        r = native.ask({'kind': 'load_value', 'value': cprog})
+        case = {'kind': 'load_value', 'value': cprog, 'property': 'C13', 'what': what}
+        if 'panic' in r:
+            oc.violations.append(('panic', '[%s] converting %s panics natively: %s' % (name, json.dumps(cprog), r['panic']), case))
+            continue
+        if 'ok' not in r:
+            oc.inconclusive.append('native load failed: %r' % (r,))
+            continue
+        if name == 'spellings':
+            spell_natives[json.dumps(cprog, sort_keys=True)] = r['ok']
+            continue
+        try:
+            ref = names_to_codes(ref_expand(cprog))
+        except RefReject as e:
+            ref = None
+        if 'rejected' in r['ok']:
+            if ref is not None:
+                oc.violations.append(('rejects valid', '[%s] %s is rejected natively (%s) but has a hand-written expansion' % (name, json.dumps(cprog), r['ok']['rejected']), case))
+            else:
+                oc.inconclusive.append('ENGINE-MISMATCH: %s' % what)
+            continue
+        real = r['ok']['layout']
+        diff = compare_blocks(real, ref) if ref is not None else 'accepted although the reference rejects it'
+        if diff is not None:
+            oc.violations.append((role, '[%s] program %s: %s' % (name, json.dumps(cprog), diff), case))
+        else:
+            oc.inconclusive.append('ENGINE-MISMATCH (symbolic violation not reproduced natively): [%s] %s' % (name, what))
+    for a, b in c13_spellings():
+        ka, kb = json.dumps(a, sort_keys=True), json.dumps(b, sort_keys=True)
+        if ka in spell_natives and kb in spell_natives and spell_natives[ka] != spell_natives[kb]:
+            oc.violations.append(('spellings', 'equivalent spellings %s and %s convert differently natively' % (ka, kb), {'kind': 'load_value', 'value': a, 'other': b, 'property': 'C13'}))
+    # differential validation: the concrete programs through MIR vs natively
+    validated = 0
+    for name, program in c13_programs(tier, random.Random(seed)):
+        if has_sym(program):
+            program = subst_program(program, 'w')
+        it = Interp(prog, keys=KeyTheory(mapper.DOMAIN))
+        try:
+            st, res = load_value(it, value_of(program))
+            mine = layout_to_py(it, res) if st == 'ok' else None
+        except Panic:
+            st, mine = 'panic', None
+        r = native.ask({'kind': 'load_value', 'value': program})
+        validated += 1
+        nat = r.get('ok', {}).get('layout') if 'ok' in r else None
+        if (st == 'ok') != (nat is not None) or (nat is not None and nat != mine):
+            oc.inconclusive.append('model/native disagreement on program %s: %r vs %r' % (name, mine, r))
+            break
+        if validated >= (25 if tier == 'quick' else 200):
+            break
+    native.close()
+    cov = {
+        'explanation': 'parse_layout_from_json + convert (crate MIR, incl. the lazily initialised CHAR_ACCESS_MAP / US_KEYBOARD_LAYOUT / ROW_NAMES tables) on layout programs; '
+                       'in row programs one letter position at a time is a symbolic character over printable ASCII + space, decided by the solver at the table lookup (95 classes); '
+                       'the result is compared with a hand-written expansion built from an independent US-QWERTY table (blocks per source mapping in source order, order inside a block free)',
+        'evaluations': stats['paths'], 'distinct_nontrivial': stats['paths'],
+        'rule': 'one evaluation = one symbolic path (program x class of the symbolic letter); programs are distinct by construction',
+        'samples': samples or [{'program': 'row A, symbolic letter at position 0'}],
+        'programs': stats['programs'], 'programs_with_a_symbolic_letter': stats['symbolic_letters'], 'paths': stats['paths'],
+        'mir_statements_executed': stats['mir_steps'], 'solver': {'z3 checks (branch feasibility at the character table)': stats['z3_checks']},
+        'traces_validated_against_impl': validated,
+        'functions_encoded': ['parse_layout_from_json and parse_* callees', 'convert, convert_mapping, convert_alias, convert_single, convert_row, convert_row_to, adjust_repeats, FromSet::new, build_combinations, iterate_combinations, MultiplyIter, AliasCombination::*', 'KeyCode::from_str', 'lazy statics CHAR_ACCESS_MAP, US_KEYBOARD_LAYOUT, ROW_NAMES'],
+        'bounds': 'rows up to their full length (Q row: 12 keys as in the tool), <= 3 alias/plain modifiers, <= 3 definitions per alias, <= 3 aliases per trigger; quick tier: 3 symbolic positions per row, thorough: every position x 4 variants; '
+                  'the emission rule for alias definitions themselves (nothing for a lone standard modifier, otherwise trigger -> extra output keys) is taken from the code, the property text does not define it',
+    }
+    rc = oc.report()
+    write_evidence('C13', tier, seed, cov, ['the hand-written expansion and its US-QWERTY table are the oracle', 'JSON text -> Value is serde_json (dependency)'], time.time() - t0, len(oc.violations))
+    return rc
